@@ -284,6 +284,15 @@ func c14Cases(quick bool) []c14Case {
 	add("symlink", fsData(4, func(d *pb.Data) { d.Data = []byte("../t") }), false, "linkmap", all)
 	add("metadata", fsData(3, nil), false, "linkmap", all)
 	add("metadata-with-data", fsData(3, func(d *pb.Data) { d.Data = []byte{0x0a, 0x01, 'x'} }), false, "linkmap", all)
+	// reification is directed by the type alone: what the inner Data bytes of a
+	// Metadata / Symlink / Directory node hold (text, a truncated or ill-typed
+	// protobuf record, a long blob) is not its business
+	for i, pl := range [][]byte{[]byte("hello"), {0x0a, 0x05, 'x'}, {0x08, 0x01}, {0xff}, bytesRepeat(0xa5, 300)} {
+		pl := pl
+		add(fmt.Sprintf("metadata-opaque-payload-%d", i), fsData(3, func(d *pb.Data) { d.Data = pl }), false, "linkmap", all)
+		add(fmt.Sprintf("symlink-opaque-payload-%d", i), fsData(4, func(d *pb.Data) { d.Data = pl }), false, "linkmap", all)
+		add(fmt.Sprintf("directory-opaque-payload-%d", i), fsData(1, func(d *pb.Data) { d.Data = pl }), false, "map", all)
+	}
 	add("raw-type", fsData(0, func(d *pb.Data) { d.Data = []byte("rawdata") }), false, "bytes", []int{0})
 	add("raw-type-empty", fsData(0, nil), false, "bytes", []int{0})
 	add("file-single", fsData(2, func(d *pb.Data) { d.Data = []byte("hello"); d.Filesize = u64p(5) }), false, "bytes", []int{0})
@@ -629,4 +638,12 @@ func (k c14Sink) count(which int) {
 	case 2:
 		k.r.States.Add(1)
 	}
+}
+
+func bytesRepeat(b byte, n int) []byte {
+	out := make([]byte, n)
+	for i := range out {
+		out[i] = b
+	}
+	return out
 }
